@@ -296,8 +296,8 @@ func classOf(p *core.Prog, fn *ssa.Function) *charClass {
 			}
 			return core.StateSet(0).Add(s)
 		}
-		fl.Branch = func(iff *ssa.If, succ int, st int) (int, bool) {
-			cond, neg := iff.Cond, false
+		fl.BranchOn = func(cond0 ssa.Value, succ int, st int) (int, bool) {
+			cond, neg := cond0, false
 			for {
 				u, ok := cond.(*ssa.UnOp)
 				if !ok || u.Op != token.NOT {
@@ -318,6 +318,14 @@ func classOf(p *core.Prog, fn *ssa.Function) *charClass {
 				truth = !truth
 			}
 			return st, truth == (succ == 0)
+		}
+		fl.Branch = func(iff *ssa.If, succ int, st int) (int, bool) { return fl.BranchOn(iff.Cond, succ, st) }
+		fl.EvalBoolAt = func(v ssa.Value, st int) int8 {
+			cur := first
+			if st == 2 {
+				cur = ch
+			}
+			return oracle(cur)(v)
 		}
 		res := fl.Run()
 		for _, ret := range core.Returns(fn) {
